@@ -351,6 +351,37 @@ def rule_P4(ctx):
                   ctx.where(mod, n))
 
 
+def rule_P4_inputs(ctx):
+    """Source and grid objects are shared by all tasks of a sequential run
+    and re-created per task in worker processes / file mode: a function of
+    the task path that stores something ON them (a cache) makes the modes
+    differ.  get_source_field and the vector builders must not write
+    attributes of their grid / source / coordinates arguments."""
+    fm = ctx.repo.mod('emg3d/fields.py')
+    n = 0
+    for name in ('get_source_field', '_point_vector', '_dipole_vector',
+                 '_point_vector_magnetic', 'get_receiver',
+                 'get_magnetic_field'):
+        fn = fm.func(name)
+        ps = set(au.params(fn)) | {a.arg for a in fn.args.kwonlyargs}
+        # parameters re-bound to a fresh local object are no longer inputs
+        for st in au.walk_local(fn):
+            if not isinstance(st, (ast.Assign, ast.AugAssign)):
+                continue
+            for t in store_targets(st):
+                if isinstance(t, ast.Attribute) and root_name(t) in ps:
+                    n += 1
+                    ctx.check('C11.P4.purity', f'{name} `{au.stext(st)[:50]}`',
+                              False,
+                              f'stores an attribute on its argument '
+                              f'`{root_name(t)}`: the object is shared by the '
+                              'tasks of a sequential run but re-created for '
+                              'worker processes and files, so results depend '
+                              'on the execution mode', ctx.where(fm, st))
+    ctx.ok('C11.P4.purity', 'fields.py task functions: attribute stores on '
+           f'arguments ({n} found)', sample={'stores_on_arguments': n})
+
+
 def run(ctx):
     ctx.explanation = (
         'Order/slot discipline is decided on the AST: return expressions of '
@@ -367,3 +398,4 @@ def run(ctx):
     rule_P2(ctx)
     rule_P3_worker(ctx)
     rule_P4(ctx)
+    rule_P4_inputs(ctx)
